@@ -484,7 +484,9 @@ class TimeTriggeredPlanValidator(engines.engine.Engine, mixins.PlanValidatorMixi
 
         if not open_interval:
             yield before_time, trace[before_time]
-        if equal_time != before_time and equal_time != end:
+        if end is None or start < end:
+            # The state holding right after `start`; it is trace[before_time] again when
+            # nothing happens exactly at `start` (needed for left-open intervals).
             yield equal_time, trace[equal_time]
         for x in inside_indexes:
             yield x, trace[x]
